@@ -102,6 +102,14 @@ Definition must_remove (ro : bool) (u v : option bhstate) (a : addr) : bool :=
   ((a_udp a && (match u with None => false | Some s => negb (bhstate_eqb s Allowed) end))
    || (a_ip6 a && (match v with None => false | Some s => negb (bhstate_eqb s Allowed) end))).
 
+(* one FilterAddrs call is ONE request: the verdict is per request, so two
+   addresses of the same class in one call get the same verdict *)
+Definition same_cls (a b : addr) : bool :=
+  Bool.eqb (a_pub a) (a_pub b) && Bool.eqb (a_udp a) (a_udp b) && Bool.eqb (a_ip6 a) (a_ip6 b).
+
+Definition verdict_consistent (ps : list (addr * bool)) : bool :=
+  forallb (fun x => forallb (fun y => negb (same_cls (fst x) (fst y)) || Bool.eqb (snd x) (snd y)) ps) ps.
+
 (* [flags]: per input address, true = returned as valid, false = returned as
    black-holed (the harness reports anything else as a malformed case). *)
 Definition filter_ok (ro : bool) (u v : option bhstate)
@@ -110,7 +118,8 @@ Definition filter_ok (ro : bool) (u v : option bhstate)
   forallb (fun af : addr * bool =>
              let '(a, kept) := af in
              if kept then negb (must_remove ro u v a) else removable ro u v a)
-          (combine addrs flags).
+          (combine addrs flags) &&
+  verdict_consistent (combine addrs flags).
 
 (* ---- wire decoding ------------------------------------------------------ *)
 Local Open Scope Z_scope.
@@ -127,34 +136,44 @@ Definition cop_of_z (z : Z) : option cop :=
   if z =? 0 then Some Req else if z =? 1 then Some (Rec false)
   else if z =? 2 then Some (Rec true) else None.
 
-(* counter case:  0 N minS (op obs)*   ; minS is sent as minS (may be 0..) *)
-Fixpoint decode_ctrace (l : list Z) (fuel : nat) : option (list (cop * bhstate)) :=
+(* internal state of a counter as the harness reads it after every op (the
+   harness is in-package): requests, len(dialResults), successes.  Compared by
+   the conformance only; the property monitor looks at answers and states. *)
+Definition cint := (Z * Z * Z)%type.
+Definition cint_of (c : counter) : cint :=
+  (Z.of_nat (requests c), Z.of_nat (length (window c)), successes c).
+Definition cint_eqb (a b : cint) : bool :=
+  let '(a1, a2, a3) := a in let '(b1, b2, b3) := b in (a1 =? b1) && (a2 =? b2) && (a3 =? b3).
+
+(* counter case:  0 N minS (op obs requests wlen successes)* *)
+Fixpoint decode_ctrace (l : list Z) (fuel : nat) : option (list (cop * bhstate * cint)) :=
   match fuel with
   | O => None
   | S f =>
     match l with
     | [] => Some []
-    | o :: x :: r =>
+    | o :: x :: rq :: wl :: sc :: r =>
         match cop_of_z o, st_of_z x, decode_ctrace r f with
-        | Some o', Some x', Some t => Some ((o', x') :: t)
+        | Some o', Some x', Some t => Some ((o', x', (rq, wl, sc)) :: t)
         | _, _, _ => None
         end
     | _ => None
     end
   end.
 
-Fixpoint first_diff (i : Z) (a b : list bhstate) : list Z :=
-  match a, b with
-  | [], [] => []
-  | x :: ra, y :: rb =>
-      if bhstate_eqb x y then first_diff (i + 1) ra rb
-      else [ERR_MISMATCH; i; z_of_st x; z_of_st y]
-  | _, _ => [ERR_MISMATCH; i; -1; -1]
+(* model replay of a counter trace, comparing answer and internals at every step *)
+Fixpoint conform_counter_run (c : counter) (i : Z) (tr : list (cop * bhstate * cint)) : list Z :=
+  match tr with
+  | [] => []
+  | (o, x, ci) :: r =>
+      let '(c', y) := cstep c o in
+      if bhstate_eqb x y && cint_eqb ci (cint_of c') then conform_counter_run c' (i + 1) r
+      else let '(m1, m2, m3) := cint_of c' in let '(i1, i2, i3) := ci in
+           [ERR_MISMATCH; i; z_of_st y; z_of_st x; m1; m2; m3; i1; i2; i3]
   end.
 
-Definition conform_counter (n : nat) (m : Z) (tr : list (cop * bhstate)) : list Z :=
-  let '(_, outs) := crun (init_counter n m) (map fst tr) in
-  first_diff 0 outs (map snd tr).
+Definition conform_counter (n : nat) (m : Z) (tr : list (cop * bhstate * cint)) : list Z :=
+  conform_counter_run (init_counter n m) 0 tr.
 
 (* index of the first step at which the monitor fails *)
 Fixpoint mon_fail_index (n : nat) (m : Z) (s : mon) (i : Z) (tr : list (cop * bhstate)) : list Z :=
@@ -168,25 +187,42 @@ Fixpoint mon_fail_index (n : nat) (m : Z) (s : mon) (i : Z) (tr : list (cop * bh
   end.
 
 (* detector case:
-     1 ro udpN udpMin ip6N ip6Min  op*
-   op = 10 k cls_1..cls_k flag_1..flag_k ust vst     (FilterAddrs; ust/vst after)
-      | 11 cls succ ust vst                          (RecordResult)
-      | 12 which succ ust vst                        (RecordResult directly on the
-                                                      shared udp (0) / ipv6 (1) counter)
+     1 udpN udpMin ip6N ip6Min  op*
+   op = 10 ro k cls_1..cls_k flag_1..flag_k OBS     FilterAddrs on a detector whose readOnly = ro
+      | 11 ro cls succ OBS                           RecordResult on that detector
+      | 12 which succ OBS                            RecordResult directly on the shared udp (0) /
+                                                     ipv6 (1) counter
+      | 13 ro k cls_1..cls_k flag_1..flag_k OBS     like 10 but through Swarm.filterKnownUndialables
+                                                     (one request per dial, whatever the number of addresses)
+   The two counters are shared by a read-write and a read-only detector, as in a
+   real node (main swarm and the AutoNAT dialer swarm).
    cls = pub + 2*udp + 4*ip6 ; flag 1 = valid, 0 = black-holed;
-   ust/vst = 0/1/2 state of the udp / ipv6 counter after the op, 9 = nil. *)
+   OBS = ust ureq uwl usucc vst vreq vwl vsucc : state (0/1/2, 9 = nil counter)
+         and internals of the udp / ipv6 counter after the op. *)
 Definition addr_of_cls (id : nat) (z : Z) : addr :=
   mkAddr (Z.testbit z 0) (Z.testbit z 1) (Z.testbit z 2) id.
 
 Fixpoint addrs_of (i : nat) (l : list Z) : list addr :=
   match l with [] => [] | z :: r => addr_of_cls i z :: addrs_of (S i) r end.
 
-Inductive dobs := DO (flags : list bool) (u v : Z).
+(* what is observed of one counter: state code and internals *)
+Definition cview := (Z * cint)%type.
+Definition cview_of (o : option counter) : cview :=
+  match o with Some c => (z_of_st (st c), cint_of c) | None => (9, (0, 0, 0)) end.
+Definition cview_eqb (a b : cview) : bool := (fst a =? fst b) && cint_eqb (snd a) (snd b).
 
-(* trace operations: the detector's own operations, plus a RecordResult issued
-   directly on one of the shared counters (that is how a read-only detector's
-   counters change in the real system: they are shared with the main swarm) *)
-Inductive top := TDet (o : dop) | TDirect (ip6 : bool) (success : bool).
+Inductive dobs := DO (flags : list bool) (u v : cview).
+
+(* trace operations: the detector's own operations with the read-only flag of
+   the detector they go through, plus a RecordResult issued directly on one of
+   the shared counters *)
+Inductive top := TDet (ro : bool) (o : dop) | TDirect (ip6 : bool) (success : bool).
+
+Definition decode_obs (l : list Z) : option (cview * cview * list Z) :=
+  match l with
+  | a :: b :: c :: d :: e :: f :: g :: h :: r => Some ((a, (b, c, d)), (e, (f, g, h)), r)
+  | _ => None
+  end.
 
 Fixpoint decode_dtrace (l : list Z) (fuel : nat) : option (list (top * dobs)) :=
   match fuel with
@@ -194,30 +230,44 @@ Fixpoint decode_dtrace (l : list Z) (fuel : nat) : option (list (top * dobs)) :=
   | S f =>
     match l with
     | [] => Some []
-    | 10 :: k :: r =>
-        let cls := ztake k r in
-        let r1 := zdrop k r in
-        let fl := ztake k r1 in
-        match zdrop k r1 with
-        | u :: v :: r2 =>
-            if (zlen cls =? k) && (zlen fl =? k) && forallb (fun z => (z =? 0) || (z =? 1)) fl then
-              match decode_dtrace r2 f with
-              | Some t => Some ((TDet (DFilter (addrs_of 0 cls)), DO (map zbool fl) u v) :: t)
+    | code :: ro :: k :: r =>
+        if (code =? 10) || (code =? 13) then
+          let cls := ztake k r in
+          let r1 := zdrop k r in
+          let fl := ztake k r1 in
+          match decode_obs (zdrop k r1) with
+          | Some (u, v, r2) =>
+              if (zlen cls =? k) && (zlen fl =? k) && forallb (fun z => (z =? 0) || (z =? 1)) fl then
+                match decode_dtrace r2 f with
+                | Some t => Some ((TDet (zbool ro) (DFilter (addrs_of 0 cls)), DO (map zbool fl) u v) :: t)
+                | None => None
+                end
+              else None
+          | None => None
+          end
+        else if code =? 11 then
+          match r with
+          | s :: r1 =>
+              match decode_obs r1 with
+              | Some (u, v, r2) =>
+                  match decode_dtrace r2 f with
+                  | Some t => Some ((TDet (zbool ro) (DRecord (addr_of_cls 0 k) (zbool s)), DO [] u v) :: t)
+                  | None => None
+                  end
               | None => None
               end
-            else None
-        | _ => None
-        end
-    | 11 :: c :: s :: u :: v :: r =>
-        match decode_dtrace r f with
-        | Some t => Some ((TDet (DRecord (addr_of_cls 0 c) (zbool s)), DO [] u v) :: t)
-        | None => None
-        end
-    | 12 :: w :: s :: u :: v :: r =>
-        match decode_dtrace r f with
-        | Some t => Some ((TDirect (zbool w) (zbool s), DO [] u v) :: t)
-        | None => None
-        end
+          | _ => None
+          end
+        else if code =? 12 then
+          match decode_obs r with
+          | Some (u, v, r2) =>
+              match decode_dtrace r2 f with
+              | Some t => Some ((TDirect (zbool ro) (zbool k), DO [] u v) :: t)
+              | None => None
+              end
+          | None => None
+          end
+        else None
     | _ => None
     end
   end.
@@ -242,59 +292,65 @@ Definition filter_results (d : detector) (addrs : list addr) : bhstate * bhstate
 Definition filter_flags (d : detector) (addrs : list addr) : list bool :=
   let '(u, v) := filter_results d addrs in map (keep u v) addrs.
 
-(* one step of the trace-level model: new detector and what is observed *)
-Definition tstep (d : detector) (o : top) : detector * dobs :=
-  let '(d', fl) :=
-    match o with
-    | TDet (DFilter l) => (fst (fst (filter_addrs d l)), filter_flags d l)
-    | TDet (DRecord a b) => (det_record d a b, [])
-    | TDirect w b =>
-        (if w then mkDet (d_udp d) (option_map (fun c => record_result c b) (d_ip6 d)) (d_ro d)
-         else mkDet (option_map (fun c => record_result c b) (d_udp d)) (d_ip6 d) (d_ro d), [])
-    end in
-  (d', DO fl (z_of_ost (ost (d_udp d'))) (z_of_ost (ost (d_ip6 d')))).
+(* the pair of shared counters *)
+Definition pair := (option counter * option counter)%type.
+Definition det_of (p : pair) (ro : bool) : detector := mkDet (fst p) (snd p) ro.
+Definition pair_of (d : detector) : pair := (d_udp d, d_ip6 d).
 
-Fixpoint dtrace (d : detector) (ops : list top) : list (top * dobs) :=
+(* one step of the trace-level model: new counters and what is observed *)
+Definition tstep (p : pair) (o : top) : pair * dobs :=
+  let '(p', fl) :=
+    match o with
+    | TDet ro (DFilter l) => (pair_of (fst (fst (filter_addrs (det_of p ro) l))), filter_flags (det_of p ro) l)
+    | TDet ro (DRecord a b) => (pair_of (det_record (det_of p ro) a b), [])
+    | TDirect w b =>
+        (if w then (fst p, option_map (fun c => record_result c b) (snd p))
+         else (option_map (fun c => record_result c b) (fst p), snd p), [])
+    end in
+  (p', DO fl (cview_of (fst p')) (cview_of (snd p'))).
+
+Fixpoint dtrace (p : pair) (ops : list top) : list (top * dobs) :=
   match ops with
   | [] => []
-  | o :: r => let '(d', x) := tstep d o in (o, x) :: dtrace d' r
+  | o :: r => let '(p', x) := tstep p o in (o, x) :: dtrace p' r
   end.
 
-(* model replay against observations *)
 Definition dobs_eqb (a b : dobs) : bool :=
   let '(DO f1 u1 v1) := a in let '(DO f2 u2 v2) := b in
-  list_eqb Bool.eqb f1 f2 && (u1 =? u2) && (v1 =? v2).
+  list_eqb Bool.eqb f1 f2 && cview_eqb u1 u2 && cview_eqb v1 v2.
 
-Fixpoint conform_det (d : detector) (i : Z) (tr : list (top * dobs)) : list Z :=
+Fixpoint conform_det (p : pair) (i : Z) (tr : list (top * dobs)) : list Z :=
   match tr with
   | [] => []
   | (o, x) :: r =>
-      let '(d', mx) := tstep d o in
-      if dobs_eqb mx x then conform_det d' (i + 1) r
+      let '(p', mx) := tstep p o in
+      if dobs_eqb mx x then conform_det p' (i + 1) r
       else let '(DO _ mu mv) := mx in let '(DO _ u v) := x in
-           [ERR_MISMATCH; i; mu; mv; u; v]
+           [ERR_MISMATCH; i; fst mu; fst (fst (snd mu)); fst mv; fst (fst (snd mv));
+            fst u; fst (fst (snd u)); fst v; fst (fst (snd v))]
   end.
 
 Definition ostz (z : Z) : option bhstate := st_of_z z.
 
-(* property monitor on the detector trace: judged only from observations *)
-Fixpoint monitor_det (ro : bool) (u v : option bhstate) (i : Z) (tr : list (top * dobs)) : list Z :=
+(* property monitor on the detector trace: judged only from observations.
+   [u], [v]: what was observed of the two counters before the op. *)
+Fixpoint monitor_det (u v : cview) (i : Z) (tr : list (top * dobs)) : list Z :=
   match tr with
   | [] => []
   | (o, DO fl u' v') :: r =>
       let ok :=
         match o with
-        | TDet (DFilter l) => filter_ok ro u v l fl
+        | TDet ro (DFilter l) => filter_ok ro (ostz (fst u)) (ostz (fst v)) l fl
         | _ => true
         end in
-      (* read-only: the detector's own operations never change state *)
+      (* read-only: the detector's own operations never change any state *)
       let frozen :=
         match o with
-        | TDet _ => negb ro || ((z_of_ost u =? u') && (z_of_ost v =? v'))
-        | TDirect _ _ => true
+        | TDet true _ => cview_eqb u u' && cview_eqb v v'
+        | _ => true
         end in
-      if ok && frozen then monitor_det ro (ostz u') (ostz v') (i + 1) r
-      else [ERR_PROPERTY; i; z_of_ost u; z_of_ost v; u'; v']
+      if ok && frozen then monitor_det u' v' (i + 1) r
+      else [ERR_PROPERTY; i; fst u; fst v; fst u'; fst v'; boolz ok; boolz frozen]
   end.
 
 Definition mk_counter_opt (n m : Z) : option counter :=
@@ -308,9 +364,9 @@ Definition conform_case (l : list Z) : list Z :=
       | Some tr => conform_counter (Z.to_nat n) m tr
       | None => [ERR_MALFORMED; 1]
       end
-  | 1 :: ro :: un :: um :: vn :: vm :: r =>
+  | 1 :: un :: um :: vn :: vm :: r =>
       match decode_dtrace r (S (length r)) with
-      | Some tr => conform_det (mkDet (mk_counter_opt un um) (mk_counter_opt vn vm) (zbool ro)) 0 tr
+      | Some tr => conform_det (mk_counter_opt un um, mk_counter_opt vn vm) 0 tr
       | None => [ERR_MALFORMED; 2]
       end
   | _ => [ERR_MALFORMED; 3]
@@ -321,15 +377,13 @@ Definition monitor_case (l : list Z) : list Z :=
   | 0 :: n :: m :: r =>
       if n <=? 0 then [ERR_MALFORMED; 0] else
       match decode_ctrace r (S (length r)) with
-      | Some tr => mon_fail_index (Z.to_nat n) m mon_init 0 tr
+      | Some tr => mon_fail_index (Z.to_nat n) m mon_init 0 (map fst tr)
       | None => [ERR_MALFORMED; 1]
       end
-  | 1 :: ro :: un :: um :: vn :: vm :: r =>
+  | 1 :: un :: um :: vn :: vm :: r =>
       match decode_dtrace r (S (length r)) with
       | Some tr =>
-          monitor_det (zbool ro)
-            (if un =? 0 then None else Some Probing)
-            (if vn =? 0 then None else Some Probing) 0 tr
+          monitor_det (cview_of (mk_counter_opt un um)) (cview_of (mk_counter_opt vn vm)) 0 tr
       | None => [ERR_MALFORMED; 2]
       end
   | _ => [ERR_MALFORMED; 3]
